@@ -17,6 +17,9 @@ FAMILIES = ["own-v1", "own-v2", "own-hybrid", "ref-V1", "ref-V2",
             "ref-V1-bep47x2"]
 OWN = {"own-v1": "TorrentFile", "own-v2": "Assembler2",
        "own-hybrid": "Assembler3", "own-v1-aligned": "TorrentFile"}
+# families whose directory metafiles carry BEP 47 padding entries
+PADDED = ["own-v1-aligned", "ref-V1-bep47", "ref-V1-bep47x2", "own-hybrid",
+          "ref-HY-notrail"]
 SCATTER = ["orig", "flat", "deep", "split"]
 DECOY = ["none", "decoy", "unrelated", "partial"]
 
@@ -137,6 +140,80 @@ def add_decoys(files, placed, kind, seed):
     return out
 
 
+def pad_entries(meta):
+    """{relative path under dest (tuple of str): length} of the BEP 47 padding
+    entries in the metafile's v1 file list (v1 and hybrid metafiles)."""
+    info = meta[b"info"]
+    name = info[b"name"].decode()
+    out = {}
+    for f in info.get(b"files", []):
+        if b"p" in f.get(b"attr", b""):
+            out[(name,) + tuple(c.decode() for c in f[b"path"])] = \
+                f[b"length"]
+    return out
+
+
+def add_pad_decoys(metas, search_dir, seed):
+    """For every padding entry of the metafiles: files named like the entry's
+    last path element, of exactly the recorded length, without a single zero
+    byte (padding stands for zeros, so none of their bytes verify) - one
+    below a directory called like the entry's parent, listed first, and one
+    in a directory listed last.  Returns the planted bytes."""
+    planted = set()
+    for meta in metas:
+        for rel, length in sorted(pad_entries(meta).items()):
+            if not length:
+                continue
+            for k, sub in enumerate((("!pads",) + rel[1:-1], ("~pads",))):
+                q = os.path.join(search_dir, *sub, rel[-1])
+                if os.path.exists(q):
+                    continue
+                body = world.content(seed, f"pad{k}:{rel[-1]}", length)
+                world.write_file(q, body)
+                planted.add(body)
+    return planted
+
+
+def wclass(w):
+    """Coarse input class of a world for signatures."""
+    c = e1.world_class(w)
+    if len(w["sizes"]) >= 100:
+        c += "+many-files"
+    if w["shape"].startswith("LN") or len(w.get("rootname", "").encode()) > 200:
+        c += "+name-near-NAME_MAX"
+    return c
+
+
+def written_probs(before, after, assigned, padpaths, srcfiles, decoy_bytes):
+    """C14, third clause: everything written to the destination (trees
+    before / after as {rel: bytes}) is a copy of a same-named candidate of
+    the recorded length at a path the metafile assigns; nothing is removed."""
+    probs = []
+    for rel, data in after.items():
+        if before.get(rel) == data:
+            continue
+        if rel in padpaths and rel not in assigned:
+            # whether padding is materialised (as zeros) is not judged; only
+            # that a non-verifying decoy is not placed
+            if data in decoy_bytes:
+                probs.append(("all-different-decoy-placed", list(rel)))
+            continue
+        if rel not in assigned:
+            probs.append(("wrote-at-unassigned-path", list(rel)))
+            continue
+        if len(data) != assigned[rel]:
+            probs.append(("written-file-has-wrong-length", list(rel)))
+        if data not in srcfiles.get(rel[-1], []):
+            probs.append(("written-file-not-a-copy-of-a-candidate",
+                          list(rel)))
+        if data in decoy_bytes:
+            probs.append(("all-different-decoy-placed", list(rel)))
+    for rel in before:
+        if rel not in after:
+            probs.append(("destination-file-removed", list(rel)))
+    return probs
+
+
 def expected_tree(meta):
     """{relative path under dest (tuple of str): length} the metafile assigns."""
     ver, single, layout = model.payload_layout(meta)
@@ -174,7 +251,21 @@ class RebuildCheck:
                 "size with entirely different bytes in directories listed "
                 "before and after the true copy (both listing orders), "
                 "unrelated files (other names; same name but longer), partial "
-                "decoys (same name and size, only the last byte differs)",
+                "decoys (same name and size, only the last byte differs); at "
+                "real scale also files named and sized like the BEP 47 padding "
+                "entries of the metafile (no zero byte) in directories listed "
+                "first and last",
+                "file names of 241, 242, 250, 251 and 255 bytes (NAME_MAX = "
+                "255), ASCII and multi-byte UTF-8 of the same byte lengths, at "
+                "the top level, in a sub-directory and as the name of a "
+                "single-file torrent; every family; original / deep / split "
+                "scattering; with and without same-named decoys",
+                "many small files: 1100 files in one directory with sizes 1 "
+                "and cyclic (1,0,2,3) at 32 KiB pieces, so that one piece "
+                "spans more than a thousand files (thorough: further size "
+                "patterns, 300 and 40 files, unrelated neighbours); no "
+                "same-named decoys there (the v1 matcher tries every "
+                "combination of candidates within a piece)",
                 "metafile families: own v1 / v1 --align / v2 / hybrid, "
                 "reference V1 / V1 with BEP 47 pad files / V2 / hybrid",
                 "'full directory structure' includes empty files; the count "
@@ -191,6 +282,21 @@ class RebuildCheck:
                 "extra file; histories of up to 3 rebuilds (same metafile "
                 "again, a second metafile sharing file names) into one "
                 "destination",
+                "pre-state 'directory at the target path, holding an unrelated "
+                "file' (quick: next to absent-only or correct-only neighbours; "
+                "thorough: full product with the other pre-states)",
+                "padded families (v1 --align, reference BEP 47, hybrids): files "
+                "named like a padding entry's last path element, of exactly "
+                "the pad length, without a zero byte, in directories listed "
+                "first and last, both listing orders; whether padding is "
+                "materialised as zeros is not judged, only that such a decoy "
+                "is never placed",
+                "the metafile stored inside the destination: at the very path "
+                "it assigns to a payload file of its own name (single-file "
+                "torrent y.torrent at dest/y.torrent; pack/m.torrent at "
+                "dest/pack/m.torrent), payload larger / smaller than the "
+                "metafile, and elsewhere in the destination; history of two "
+                "rebuilds; the metafile must keep its bytes",
                 "a decoy is 'never placed' only if it differs from the true "
                 "file in every byte; partially verifying decoys are not judged; "
                 "a same-named candidate that is the true file plus a tail must "
@@ -221,11 +327,16 @@ class RebuildCheck:
         self.rule = {
             "C13": "nested product scale x P x shape x sizes x family x "
                    "scattering x decoy x listing order (+ batches x listing "
-                   "orders of the metafile directory); transition = one "
+                   "orders of the metafile directory; + name length x "
+                   "encoding x position of the long name x family x "
+                   "scattering x decoy; + many-files worlds x family x "
+                   "scattering); transition = one "
                    "Assembler.assemble_torrents() on the real code; oracle = "
                    "destination equals the reference layout byte for byte",
             "C14": "explicit-state search over rebuild histories from every "
-                   "destination pre-state vector; state = canonical "
+                   "destination pre-state vector (x decoy kind incl. pad-named "
+                   "decoys x listing order; + metafile location inside the "
+                   "destination x layout x payload size); state = canonical "
                    "destination + search trees; invariants evaluated on every "
                    "transition (snapshots + audit hook)",
             "C19": "full product of hostile names x path element sequences x "
@@ -254,6 +365,9 @@ class RebuildCheck:
                         continue
                     gs.append({"kind": "prestate", "family": fam, "shape": sh,
                                "seed": seed, "tier": tier})
+            for fam in FAMILIES:
+                gs.append({"kind": "metadest", "family": fam, "seed": seed,
+                           "tier": tier})
             return gs
         # C13
         for B in ([2] if quick else [2, 4]):
@@ -300,6 +414,27 @@ class RebuildCheck:
                    "worlds": [list(t) for t in world.text_like_worlds()],
                    "seed": seed, "tier": tier})
         gs.append({"kind": "batch", "seed": seed, "tier": tier})
+        # file names near NAME_MAX: 241, 242, 250, 251, 255 bytes, ASCII and
+        # multi-byte UTF-8 with the same byte lengths (real scale)
+        for nbytes in world.LONG_NAME_LENGTHS:
+            for enc in "au":
+                gs.append({"kind": "names", "nbytes": nbytes, "enc": enc,
+                           "P": 32768, "seed": seed, "tier": tier})
+        # many small files: one piece spans more than a thousand files
+        P = 32768
+        many = [("W1100", [1] * 1100),
+                ("W1100", e1.cyclic_vectors(1100, [1, 0, 2, 3], [0])[0])]
+        if not quick:
+            many += [("W1100", e1.cyclic_vectors(1100, [97, 0, 101],
+                                                 [0])[0]),
+                     ("W300", [1] * 300),
+                     ("W300", e1.cyclic_vectors(300, [0, 1, P, 5, P + 1, 2],
+                                                [0])[0]),
+                     ("W40", e1.cyclic_vectors(40, [1, 0, P - 1, P, 2],
+                                               [0])[0])]
+        # (long-running groups: scheduled early)
+        gs[1:1] = [{"kind": "many", "shape": sh, "sizes": sizes, "P": P,
+                    "seed": seed, "tier": tier} for sh, sizes in many]
         return gs
 
     # ------------------------------------------------------------- C13
@@ -310,30 +445,46 @@ class RebuildCheck:
         files = world.files_of(w, seed)
         tree = dict(files)
         found = []
+        rootname = w.get("rootname") or NAME
         if w["shape"] == "D1n":
             fams = [f for f in (fams or FAMILIES) if "v2" not in f.lower()]
+        if decoys is None:
+            # files named and sized like the padding entries: at real scale
+            decoys = DECOY + (["pad"] if w["scale"] == "R" else [])
         with tf.scale(B):
             sb0 = world.fresh_dir("rb_")
             src_parent = os.path.join(sb0, "src")
             os.mkdir(src_parent)
-            srcroot = world.materialize(files, src_parent, shape=w["shape"])
+            srcroot = world.materialize(files, src_parent, name=rootname,
+                                        shape=w["shape"])
             metas = {}
             for fam in fams or FAMILIES:
                 mp = os.path.join(sb0, fam + ".torrent")
                 try:
-                    raw = make_meta(fam, tree, P, B, srcroot, mp)
+                    raw = make_meta(fam, tree, P, B, srcroot, mp,
+                                    name=rootname)
                     metas[fam] = (mp, bencode.decode(raw, strict=False))
                 except Exception as e:  # noqa
                     metas[fam] = (None, e)
+            padded = [f for f in fams or FAMILIES
+                      if metas[f][0] and pad_entries(metas[f][1])]
             for sc in scatters or SCATTER:
-                for dk in decoys or DECOY:
+                for dk in decoys:
+                    if dk == "pad" and not padded:
+                        continue
                     sb = os.path.join(sb0, f"{sc}_{dk}")
                     os.mkdir(sb)
-                    dirs, placed = scatter_files(files, sb, sc)
-                    add_decoys(files, placed, dk, seed)
+                    dirs, placed = scatter_files(files, sb, sc,
+                                                 single_name=rootname)
+                    if dk == "pad":
+                        add_pad_decoys([metas[f][1] for f in padded],
+                                       dirs[0], seed)
+                    else:
+                        add_decoys(files, placed, dk, seed)
                     orders = listings or (["sorted", "reversed"]
-                                          if dk != "none" else ["sorted"])
-                    for fam in fams or FAMILIES:
+                                          if dk not in ("none", "pad")
+                                          else ["sorted"])
+                    for fam in (padded if dk == "pad" else fams or FAMILIES):
                         mp, meta = metas[fam]
                         if mp is None:
                             found.append((f"{self.id}|{fam}|metafile-setup-"
@@ -353,7 +504,7 @@ class RebuildCheck:
                             res.outcomes[f"{w['scale']}:" + (
                                 probs[0][0] if probs else "ok")] += 1
                             for p, d in probs:
-                                sig = (f"C13|{fam}|{p}|{e1.world_class(w)}|"
+                                sig = (f"C13|{fam}|{p}|{wclass(w)}|"
                                        f"{sc}|{dk}")
                                 if dk == "partial" and model.meta_version_of(
                                         meta[b"info"]) == 1 and \
@@ -364,6 +515,14 @@ class RebuildCheck:
                                     sig = ("C13|v1-piece-matcher|restored-"
                                            "with-wrong-bytes|same-size-decoy-"
                                            "differing-only-in-a-later-piece")
+                                if p == "rebuild-raised:RecursionError" and \
+                                        len(files) >= 1000 and \
+                                        model.meta_version_of(
+                                            meta[b"info"]) == 1:
+                                    # one call site, one input class
+                                    sig = ("C13|v1-piece-matcher|rebuild-"
+                                           "raised:RecursionError|one-piece-"
+                                           "spans-a-thousand-files")
                                 found.append((sig, {
                                     "world": w, "seed": seed, "family": fam,
                                     "scatter": sc, "decoy": dk,
@@ -389,7 +548,9 @@ class RebuildCheck:
                           [list(r) for r in missing][:4]))
         if wrong:
             probs.append(("restored-with-wrong-bytes", [list(r) for r in wrong]))
-        present = sum(1 for r in want if r in got)
+        # (a materialised padding entry is a file that is present, too)
+        present = sum(1 for r in list(want) + list(pad_entries(meta))
+                      if r in got)
         if isinstance(cnt, int) and cnt > present:
             probs.append(("counted-more-than-present", (cnt, present)))
         return probs
@@ -512,13 +673,24 @@ class RebuildCheck:
                     3: [[P + 5, 9, P], [5, 0, 2 * P]]}[n]
         pre_alpha = ["absent", "correct", "wrong-same-size", "shorter",
                      "longer"]
+        # "dir": the target path is taken by a directory that holds an
+        # unrelated file.  quick: next to absent-only or correct-only
+        # neighbours; thorough: the full product
+        pres = list(itertools.product(pre_alpha, repeat=n))
+        if quick:
+            for other in ("absent", "correct"):
+                pres += [v for v in itertools.product((other, "dir"),
+                                                      repeat=n)
+                         if "dir" in v and v not in pres]
+        else:
+            pres = list(itertools.product(pre_alpha + ["dir"], repeat=n))
         found = []
         for sizes in sizesets:
             w = {"scale": "R", "B": REAL_B, "P": P, "shape": sh,
                  "sizes": sizes}
             files = world.files_of(w, seed)
             tree = dict(files)
-            for pre in itertools.product(pre_alpha, repeat=n):
+            for pre in pres:
                 for dk, order in (("none", "sorted"), ("decoy", "sorted"),
                                   ("decoy", "reversed"), ("longer", "sorted"),
                                   ("longer", "reversed"),
@@ -526,9 +698,13 @@ class RebuildCheck:
                                   ("decoy-lo", "reversed"),
                                   ("decoy-hi", "sorted"),
                                   ("decoy-hi", "reversed"),
-                                  ("decoy-dir0", "sorted")):
-                    if dk in ("longer", "decoy-lo", "decoy-hi", "decoy-dir0") \
+                                  ("decoy-dir0", "sorted"),
+                                  ("pad", "sorted"), ("pad", "reversed")):
+                    if dk in ("longer", "decoy-lo", "decoy-hi", "decoy-dir0",
+                              "pad") \
                             and any(p != "absent" for p in pre) and quick:
+                        continue
+                    if dk == "pad" and fam not in PADDED:
                         continue
                     found += self.c14_history(w, files, tree, fam, pre, dk,
                                               seed, res, quick, order)
@@ -560,6 +736,14 @@ class RebuildCheck:
         shutil.rmtree(src2)
         dirs, placed = scatter_files(files, sb, "deep")
         decoys = add_decoys(files, placed, dk, seed)
+        pad_decoy_bytes = set()
+        if dk == "pad":
+            # files named and sized like the padding entries of both
+            # metafiles, without a zero byte
+            pad_decoy_bytes = add_pad_decoys([meta, meta2], dirs[0], seed)
+            if not pad_decoy_bytes:
+                shutil.rmtree(sb, ignore_errors=True)
+                return []
         _d2, _p2 = scatter_files(files2, sb, "flat", single_name="other",
                                  tag="b")
         dirs = dirs + _d2
@@ -575,6 +759,9 @@ class RebuildCheck:
                 os.path.join(dest, name)
             if st == "absent":
                 continue
+            if st == "dir":
+                world.write_file(os.path.join(p, "unrelated.txt"), b"mine")
+                continue
             if st == "correct":
                 body = data
             elif st == "wrong-same-size":
@@ -587,7 +774,7 @@ class RebuildCheck:
                 body = data + b"tail"
             world.write_file(p, body)
         world.write_file(os.path.join(dest, "unrelated.bin"), b"mine")
-        decoy_bytes = set()
+        decoy_bytes = set(pad_decoy_bytes)
         for q in (decoys if dk.startswith("decoy") else []):
             with open(q, "rb") as f:
                 decoy_bytes.add(f.read())
@@ -638,32 +825,26 @@ class RebuildCheck:
                 probs.append(("unrelated-destination-file-altered", None))
             # 3. everything written is a verified copy at an assigned path
             assigned = expected_tree(cur_meta)
+            padpaths = pad_entries(cur_meta)
             srcfiles = {}
             for d_ in dirs:
                 for rel, data in world.read_tree(d_).items():
                     srcfiles.setdefault(rel[-1], []).append(data)
-            for rel, data in after.items():
-                if before.get(rel) == data:
-                    continue
-                if rel not in assigned:
-                    probs.append(("wrote-at-unassigned-path", list(rel)))
-                    continue
-                if len(data) != assigned[rel]:
-                    probs.append(("written-file-has-wrong-length", list(rel)))
-                if data not in srcfiles.get(rel[-1], []):
-                    probs.append(("written-file-not-a-copy-of-a-candidate",
-                                  list(rel)))
-                if data in decoy_bytes:
-                    probs.append(("all-different-decoy-placed", list(rel)))
-            for rel in before:
-                if rel not in after:
-                    probs.append(("destination-file-removed", list(rel)))
+            probs += written_probs(before, after, assigned, padpaths,
+                                   srcfiles, decoy_bytes)
             if st != "ok":
                 res.extra["rebuild_raised_in_history"] += 1
             res.outcomes[probs[0][0] if probs else "ok"] += 1
             for p, d in model._dedup(probs):
-                found.append((f"C14|{fam}|{p}|step{step}:{which}|"
-                              f"decoy={dk}",
+                sig = (f"C14|{fam}|{p}|step{step}:{which}|decoy={dk}" +
+                       ("|directory-at-a-target-path" if "dir" in pre
+                        else ""))
+                if p == "wrote-at-unassigned-path" and "dir" in pre:
+                    # one call site (the copy onto an existing directory),
+                    # one input class, every family
+                    sig = ("C14|copypath|wrote-at-unassigned-path|"
+                           "directory-at-a-target-path")
+                found.append((sig,
                               {"kind": "prestate", "world": w, "family": fam,
                                "pre": list(pre), "decoy": dk, "seed": seed,
                                "quick": quick, "listing": order}, d))
@@ -699,6 +880,113 @@ class RebuildCheck:
                                "pre": list(pre), "decoy": dk, "seed": seed,
                                "quick": quick, "listing": order}, bad))
         shutil.rmtree(sb, ignore_errors=True)
+        return found
+
+    def c14_metadest(self, fam, layout, size, where, seed, res, quick=True):
+        """The metafile itself lives inside the destination (the statement
+        constrains the destination against the search directories only):
+        'at-payload-path' = exactly where it tells rebuild to put a payload
+        file of its own name, 'beside' = elsewhere in the destination.
+        History: rebuild, rebuild again.  Judged: the metafile and the search
+        directories keep their bytes; what is written is a verified copy at
+        an assigned path."""
+        P, B = 32768, REAL_B
+        found = []
+        sb = world.fresh_dir("c14m_")
+        if layout == "single":
+            name = "y.torrent"
+            files = [((), world.content(seed, 0, size))]
+            mrel = (name,)
+        else:
+            name = "pack"
+            files = [(("m.torrent",), world.content(seed, 0, size)),
+                     (("d", "z.bin"), world.content(seed, 1, P + 9))]
+            mrel = (name, "m.torrent")
+        if where == "beside":
+            mrel = ("metas", "m1.torrent")
+        tree = dict(files)
+        srcp = os.path.join(sb, "src")
+        os.mkdir(srcp)
+        srcroot = world.materialize(files, srcp, name=name)
+        dest = os.path.join(sb, "dest")
+        mp = os.path.join(dest, *mrel)
+        os.makedirs(os.path.dirname(mp))
+        raw = make_meta(fam, tree, P, B, srcroot, mp, name=name)
+        meta = bencode.decode(raw, strict=False)
+        shutil.rmtree(srcp)
+        dirs, _placed = scatter_files(files, sb, "deep", single_name=name)
+        world.write_file(os.path.join(dest, "unrelated.bin"), b"mine")
+        assigned = expected_tree(meta)
+        srcfiles = {}
+        for d_ in dirs:
+            for rel, data in world.read_tree(d_).items():
+                srcfiles.setdefault(rel[-1], []).append(data)
+        outside_before = world.snapshot(sb)
+        hist = ["lib", "lib"] if quick else ["lib", "cli", "lib"]
+        for step, route in enumerate(hist):
+            if not os.path.isfile(mp):
+                break
+            with open(mp, "rb") as f:
+                mbefore = f.read()
+            before = world.read_tree(dest)
+            st, cnt = run_rebuild([mp], dirs, dest, route)
+            after = world.read_tree(dest)
+            res.transitions += 1
+            res.evals += 1
+            res.states += 1
+            res.validated += 1
+            probs = []
+            mafter = None
+            if os.path.isfile(mp):
+                with open(mp, "rb") as f:
+                    mafter = f.read()
+            if mafter != mbefore:
+                probs.append(("metafile-altered",
+                              {"metafile": list(mrel),
+                               "length-before": len(mbefore),
+                               "length-after": None if mafter is None
+                               else len(mafter),
+                               "now-equals-payload": mafter == files[0][1]}))
+            snap = world.snapshot(sb)
+            ch = [k for k in set(outside_before) | set(snap)
+                  if outside_before.get(k) != snap.get(k)
+                  and not (k == "dest" or k.startswith("dest" + os.sep))]
+            if ch:
+                probs.append(("search-dirs-changed", ch[:4]))
+            # (the metafile's own path is judged above)
+            b_ = {k: v for k, v in before.items() if k != mrel}
+            a_ = {k: v for k, v in after.items() if k != mrel}
+            probs += written_probs(b_, a_, assigned, pad_entries(meta),
+                                   srcfiles, set())
+            if st != "ok":
+                res.extra["rebuild_raised_in_history"] += 1
+            res.outcomes["metadest:" + (probs[0][0] if probs else "ok")] += 1
+            for p, d in model._dedup(probs):
+                sig = (f"C14|{fam}|{p}|metafile-inside-destination-"
+                       f"{where}|{layout}")
+                if p == "metafile-altered" and where == "at-payload-path":
+                    # one call site (the copy onto a shorter existing file),
+                    # one input class, every family
+                    sig = ("C14|copypath|metafile-altered|metafile-stored-"
+                           "at-the-path-it-assigns-to-a-payload-file")
+                found.append((sig,
+                              {"kind": "metadest", "family": fam,
+                               "layout": layout, "size": size,
+                               "where": where, "seed": seed, "quick": quick},
+                              d))
+        shutil.rmtree(sb, ignore_errors=True)
+        return found
+
+    def run_metadest(self, g, res):
+        found = []
+        P = 32768
+        for layout in ("single", "dir"):
+            # a payload file larger / smaller than the metafile
+            for size in (P + 5, 7):
+                for where in ("at-payload-path", "beside"):
+                    found += self.c14_metadest(
+                        g["family"], layout, size, where, g["seed"], res,
+                        g["tier"] == "quick")
         return found
 
     # ------------------------------------------------------------- C19
@@ -1008,6 +1296,11 @@ class RebuildCheck:
             for sig, case, d in self.run_batch(g, res):
                 res.violation(sig, case, d)
             return res
+        if g["kind"] == "metadest":
+            for sig, case, d in self.run_metadest(g, res):
+                res.violation(sig, case, d)
+            res.sample({"kind": "metadest", "family": g["family"]})
+            return res
         confirmed = {}
         if g["kind"] == "lit":
             for sh, sizes, cids in g["worlds"]:
@@ -1017,6 +1310,38 @@ class RebuildCheck:
                                                    scatters=["orig", "deep"]):
                     res.violation(sig, case, d)
                 res.sample({"world": w})
+            return res
+        if g["kind"] == "names":
+            P = g["P"]
+            sh = f"LN{g['nbytes']}{g['enc']}"
+            worlds = [{"scale": "R", "B": REAL_B, "P": P, "shape": sh,
+                       "sizes": sizes}
+                      for sizes in ([P + 1, 7, 5], [0, 2 * P, 1], [5, 0, P])]
+            # the long name as the name of a single-file torrent
+            worlds += [{"scale": "R", "B": REAL_B, "P": P, "shape": "S1",
+                        "sizes": sizes,
+                        "rootname": world.long_root_name(g["nbytes"],
+                                                         g["enc"])}
+                       for sizes in ([P + 5], [7])]
+            for w in worlds:
+                for sig, case, d in self.c13_world(
+                        w, seed, res, scatters=["orig", "deep", "split"],
+                        decoys=["none", "decoy", "pad"]):
+                    res.violation(sig, case, d)
+                res.sample({"world": w})
+            return res
+        if g["kind"] == "many":
+            w = {"scale": "R", "B": REAL_B, "P": g["P"], "shape": g["shape"],
+                 "sizes": g["sizes"]}
+            # (no same-named decoys: the v1 matcher tries every combination
+            # of candidates of the files of one piece)
+            for sig, case, d in self.c13_world(
+                    w, seed, res, scatters=["orig", "flat"],
+                    decoys=["none"] if g["tier"] == "quick"
+                    else ["none", "unrelated"]):
+                res.violation(sig, case, d)
+            res.sample({"world": {"shape": g["shape"], "P": g["P"],
+                                  "sizes": g["sizes"][:8] + ["..."]}})
             return res
         if g["kind"] == "dup":
             allsizes = g["sizes"]
@@ -1086,6 +1411,11 @@ class RebuildCheck:
                                      case.get("listing", "sorted"))
         elif kind == "batch":
             found = self.run_batch({"seed": case["seed"]}, res)
+        elif kind == "metadest":
+            found = self.c14_metadest(case["family"], case["layout"],
+                                      case["size"], case["where"],
+                                      case["seed"], res,
+                                      case.get("quick", True))
         else:
             found = self.c13_world(case["world"], case["seed"], res,
                                    [case["family"]], [case["scatter"]],
